@@ -114,6 +114,33 @@ def oracle(ctx, conf, reqs, conf_name):
             if listed != expect:
                 ctx.violation("PROPFIND Depth 1 of /%s lists %s but the storage API holds %s" % ("/".join(e["path"]), listed, expect),
                               {"config": conf_name, "history": reqs})
+        # a query that selects everything (calendar-query / addressbook-query without conditions) and a sync-collection without token show the
+        # members PROPFIND Depth 1 shows, with the same ETags: three listings of one collection
+        for e in d:
+            if not e["path"] or not e["tag"]:
+                continue
+            cp = "/" + "/".join(e["path"]) + "/"
+            st, _, text = fresh.app.request("PROPFIND", cp, davsim.PROPFIND_BODY, login="u:pw", HTTP_DEPTH="1")
+            if st != 207:
+                continue
+            ms, order, _ = davsim.parse_multistatus(text)
+            base = {h: (p_["D:getetag"][1].text if isinstance(p_, dict) and "D:getetag" in p_ else None) for h, p_ in ms.items() if h.rstrip("/") != cp.rstrip("/")}
+            qbody = ('<?xml version="1.0"?><C:calendar-query xmlns:D="DAV:" xmlns:C="urn:ietf:params:xml:ns:caldav"><D:prop><D:getetag/></D:prop><C:filter>'
+                     '<C:comp-filter name="VCALENDAR"/></C:filter></C:calendar-query>') if e["tag"] == "VCALENDAR" else \
+                    ('<?xml version="1.0"?><CR:addressbook-query xmlns:D="DAV:" xmlns:CR="urn:ietf:params:xml:ns:carddav"><D:prop><D:getetag/></D:prop><CR:filter/>'
+                     '</CR:addressbook-query>')
+            sbody = '<?xml version="1.0"?><D:sync-collection xmlns:D="DAV:"><D:sync-token/><D:prop><D:getetag/></D:prop></D:sync-collection>'
+            for kind, body in (("query selecting everything", qbody), ("sync-collection without token", sbody)):
+                st2, _, t2 = fresh.app.request("REPORT", cp, body, login="u:pw")
+                if st2 != 207:
+                    ctx.violation("%s on %s answered %d" % (kind, cp, st2), {"config": conf_name, "history": reqs})
+                    continue
+                ms2, _, _ = davsim.parse_multistatus(t2)
+                # (an initial sync may mention remembered removals as 404: they are no members)
+                got = {h: (p_["D:getetag"][1].text if isinstance(p_, dict) and "D:getetag" in p_ else None) for h, p_ in ms2.items() if p_ != 404}
+                if got != base:
+                    ctx.violation("%s on %s lists %s, PROPFIND Depth 1 lists %s" % (kind, cp, sorted(got.items()), sorted(base.items())),
+                                  {"config": conf_name, "history": [(u, {k: v for k, v in x.items() if k != "objs"}) for u, x in reqs]})
         # every object is served with the text it was stored with (all pool objects carry "café")
         import re
         from common import dump_store
